@@ -198,9 +198,19 @@ def gen_assertion(st, sp, plain, want_true):
         else:
             n, uid = 'ea', 424242
         fact = fired(block, n, {'uid': uid})
-        if st.flag(1, 2):
+        form = st.choice(3)
+        if form == 0:
             return ['event %s is fired with uid=%d' % (n, uid)], fact, kind
-        return ['event %s is fired' % n, '  | parameter | value |', '  | uid | %d |' % uid], fact, kind + '_table'
+        if form == 1:
+            return ['event %s is fired' % n, '  | parameter | value |', '  | uid | %d |' % uid], fact, kind + '_table'
+        # both documented ways at once: the inline parameter and additional ones in a table; when the assertion is to be
+        # false it is the table row that is wrong while the inline parameter matches a fired event
+        if sent:
+            n, data = st.pick(sent)
+            uid = data['uid']
+        tag = 't%d' % uid if want_true else 'nope'
+        fact = fired(block, n, {'uid': uid, 'tag': tag})
+        return ['event %s is fired with uid=%d' % (n, uid), '  | parameter | value |', '  | tag | %r |' % tag], fact, kind + '_inline_and_table'
     if kind == 'no event':
         return ['no event is fired'], not sent, kind
     if kind in ('variable', 'variable not'):
